@@ -146,7 +146,7 @@ theorem for_restores_value (hN : NativeGrows ld) {fuel : Nat} {env : EnvId} {ids
       obtain ⟨_, _, _, _, rfl⟩ := h
       refine restoreVars_get env _ _ x v ?_ hmem huniq
       rw [frames_size_removeAll]; exact Nat.lt_of_lt_of_le hl hp.frames
-    | fail k t => exact ⟨fun r s' h => (by cases h), fun w m p t' s' h => (by cases h)⟩
+    | fail k t => cases k <;> exact ⟨fun r s' h => (by cases h), fun w m p t' s' h => (by cases h)⟩
 
 /-- a name bound in the frame itself is what `lookup` finds first -/
 theorem lookup_of_dictGet {s : State} {env : EnvId} {x : String} {v : RVal}
